@@ -9,6 +9,7 @@
 (* what the model says each simulator does must be what that simulator did -       *)
 (* inside AND outside the precondition of C12.  Deterministic, total.              *)
 EXTENDS SimCore, Json, IOUtils
+CONSTANT PartialChunkRaises   \* FALSE = the code since f8ad570d (see SimEquiv.tla)
 Data   == JsonDeserialize(IOEnv.TRACE_FILE)
 Traces == Data.traces
 VARIABLES tid, l, m, prevC, sn, sf, fstat, verdict,
@@ -23,8 +24,8 @@ Step ==
   /\ LET e == Hist(tid)[l] IN
      IF e.k = "feed"
      THEN /\ sn' = MinutesN(sn, e.raw, prevC, 1, m)
-          \* quirk: a trailing chunk shorter than the chunk size makes the fast simulator raise ValueError
-          /\ IF Len(e.raw) < Traces[tid].hdr.chunk THEN fstat' = "ValueError" /\ sf' = sf
+          \* former defect: a trailing chunk shorter than the chunk size made the fast simulator raise ValueError
+          /\ IF Len(e.raw) < Traces[tid].hdr.chunk /\ PartialChunkRaises THEN fstat' = "ValueError" /\ sf' = sf
              ELSE fstat' = fstat /\ sf' = (IF fstat = "run" THEN ChunkF(sf, e.raw, prevC, m) ELSE sf)
           /\ m' = m + Len(e.raw) /\ prevC' = e.raw[Len(e.raw)].c
           /\ LET n2  == MinutesN(sn, e.raw, prevC, 1, m)
@@ -37,7 +38,7 @@ Step ==
              IN /\ wf' = k /\ wlo' = lo /\ whi' = hi /\ wpx' = px
                 /\ pre' = IF pre # "ok" THEN pre ELSE IF k > 1 THEN "two-fills"
                           ELSE IF Cardinality({p \in px : lo <= p /\ p <= hi}) > 1 THEN "spacing"
-                          ELSE IF Len(e.raw) < Traces[tid].hdr.chunk THEN "ragged" ELSE "ok"
+                          ELSE IF Len(e.raw) < Traces[tid].hdr.chunk /\ PartialChunkRaises THEN "ragged" ELSE "ok"
      ELSE /\ sn' = Decide(sn, e.row, m)
           /\ sf' = (IF fstat = "run" THEN Decide(sf, e.row, m) ELSE sf)
           /\ wf' = 0 /\ wlo' = 0 /\ whi' = 0 /\ wpx' = {}
